@@ -10,7 +10,7 @@ import json
 import os
 import vlib
 
-PROPS = ['Rangers.Props.C03', 'Rangers.Props.C03Facts', 'Rangers.Props.C03Content', 'Rangers.Props.C03Fuel']
+PROPS = ['Rangers.Props.C03', 'Rangers.Props.C03Facts', 'Rangers.Props.C03Content', 'Rangers.Props.C03Fuel', 'Rangers.Props.C03Head']
 DRIVERS = ['C03']
 META = dict(
     level='proof',
